@@ -30,6 +30,9 @@ def check(c: Check):
     clause_d(c)
     from .common import check_application_purity
     check_application_purity(c, 'C13-e', ['exactly_lib.type_val_prims.string_transformer:StringTransformer', 'exactly_lib.type_val_prims.matcher.matcher_base_class:MatcherWTrace'], floor=25)
+    clause_f(c)
+    from .common import sweep_records
+    sweep_records(c, 'C13-rec', ['exactly_lib.impls.types.string_transformer.impl.filter.line_nums.range_expr', 'exactly_lib.util.interval'], floor=6, strict=True)
 
 
 # ---------------------------------------------------------------- helpers
@@ -356,3 +359,92 @@ def clause_d(c: Check):
     ok = 'interval_adaption(interval_of_unknown_class.inversion)' in src.replace('self._', '').replace('self.', '')
     c.expect(ok, 'C13-d', '_IntervalComputer/unknown-class-inversion-adapted-separately',
              'the inversion of the unknown-class interval is not adapted separately from the interval', init.loc())
+
+
+# ---------------------------------------------------------------- f
+def clause_f(c: Check):
+    """the structure the interval analysis sees is the structure that is matched: `accept(visitor)` of the four
+    standard matchers hands the visitor exactly the component(s) the matcher applies - the operands as given to the
+    constructor (same objects, same nesting), the negated matcher, the constant's boolean - through the visit method
+    of its own kind, on every path; every other matcher is non-standard (the default accept)"""
+    ix, fo = c.ix, c.fo
+    CMm = 'exactly_lib.impls.types.matcher.impls.combinator_matchers'
+    CONST = 'exactly_lib.impls.types.matcher.impls.constant'
+    table = [
+        (CMm + ':Conjunction', 'visit_conjunction', 'operands', 'list'),
+        (CMm + ':Disjunction', 'visit_disjunction', 'operands', 'list'),
+        (CMm + ':Negation', 'visit_negation', 'negated', 'one'),
+        (CONST + ':MatcherWithConstantResult', 'visit_constant', 'result', 'bool'),
+    ]
+
+    class H(Hooks):
+        loop_bound = 2
+
+        def inline(self, fd, st):
+            return fd.name == '__init__' and fd.module.name in (CMm, CONST)
+
+        def inline_class(self, cd, st):
+            return False
+
+    for key, visit, param_hint, kind in table:
+        cls = ix.cls(key)
+        init = ix.class_member(cls, '__init__')
+        acc = cls.methods.get('accept')
+        c.require(isinstance(init, FuncDef) and acc is not None, 'C13-f: %s has no own constructor / accept' % key)
+        pnames = [p.arg for p in init.positional_params()[1:] if param_hint in p.arg]
+        c.require(len(pnames) == 1, 'C13-f: constructor parameter %r of %s not found' % (param_hint, key))
+        for variant in ((True, False) if kind == 'bool' else (None,)):
+            it = Interp(ix, fo, H())
+            if kind == 'list':
+                given = ListVal([Sym('operand0', nullness=False), Sym('operand1', nullness=False)])
+            elif kind == 'one':
+                given = Sym('negated-matcher', nullness=False)
+            else:
+                given = K(variant)
+            insts = it.instantiate(cls, State(), {pnames[0]: given})
+            c.require(len(insts) >= 1, 'C13-f: constructor of %s has no path' % key)
+            obj, st = insts[0]
+            visitor = Sym('visitor')
+            ok_all = True
+            n = 0
+            for p in it.run_function(acc, {acc.positional_params()[1].arg: visitor}, st.fork(), recv=obj):
+                n += 1
+                good = False
+                if p.kind == 'return':
+                    o = p.val.origin if isinstance(p.val, Sym) else None
+                    if o and o[0] == 'call' and isinstance(o[4].func, ast.Attribute) and o[4].func.attr == visit \
+                            and len(o[2]) == 1 and o[5] is not None \
+                            and util.attr_chain(p.trace[o[5]].data.get('callee_val'))[0] is visitor:
+                        a = o[2][0]
+                        if kind == 'bool':
+                            good = isinstance(a, K) and a.v is variant
+                        elif kind == 'list':
+                            good = a is given or (isinstance(a, ListVal) and len(a.items) == 2
+                                                  and all(x is y for x, y in zip(a.items, given.items)))
+                        else:
+                            good = a is given
+                ok_all = ok_all and good
+            c.expect(ok_all and n >= 1, 'C13-f', 'accept/%s%s' % (cls.name, '' if variant is None else '/%s' % variant),
+                     '%s.accept does not hand the visitor its own %s through %s on every path: the interval analysis (which '
+                     'limits the lines `filter` reads) sees another structure than the one that is matched' % (
+                         cls.name, {'list': 'operands as given', 'one': 'negated matcher', 'bool': 'constant'}[kind], visit),
+                     acc.loc())
+    # no other class implements accept for this visitor except by delegating to visit_non_standard(self)
+    base = ix.cls('exactly_lib.type_val_prims.matcher.matcher_base_class:MatcherWTrace')
+    std = {k for k, _, _, _ in table}
+    n_other = 0
+    for k in ix.subclasses_of(base):
+        a = k.methods.get('accept')
+        if a is None or k.key in std:
+            continue
+        n_other += 1
+        r = single_return_expr(a)
+        ok = isinstance(r, ast.Call) and isinstance(r.func, ast.Attribute) and r.func.attr == 'visit_non_standard' \
+             and [unparse(x) for x in r.args] == [a.self_name]
+        c.expect(ok, 'C13-f', 'accept/non-standard/' + k.key, '%s.accept presents the matcher as %s' % (
+            k.name, unparse(r.func) if isinstance(r, ast.Call) else '?'), a.loc())
+    ba = base.methods.get('accept')
+    if ba is not None:
+        r = single_return_expr(ba)
+        ok = isinstance(r, ast.Call) and isinstance(r.func, ast.Attribute) and r.func.attr == 'visit_non_standard'
+        c.expect(ok, 'C13-f', 'accept/default', 'the default accept is not visit_non_standard', ba.loc())
